@@ -1,7 +1,7 @@
 """C16 — connection lifecycle.  Model: coq/C16; implementation: the real network / segments / noise /
 coder / auth / iq / interface layers over a fake dispatcher (harness/c16rig.py)."""
 import itertools, json
-from .. import modelrun, c16rig
+from .. import modelrun, c16rig, c16disp
 
 ASSUME = [
     "modelled: YowNetworkLayer (state, connected, dispatcher, reason), YowAuthenticationProtocolLayer, "
@@ -11,7 +11,11 @@ ASSUME = [
     "propagation incl. detached delivery, YowStack's deferred queue; all real in the rig",
     "fake dispatcher with the contract of AsyncoreConnectionDispatcher (the default): connect() -> onConnecting(); "
     "disconnect() closes and synchronously calls onDisconnected(), also when already closed "
-    "(SocketConnectionDispatcher differs: its disconnect() reports from the receive loop, later)",
+    "(SocketConnectionDispatcher differs: its disconnect() reports from the receive loop, later); that contract is "
+    "itself checked against both shipped dispatchers under the real YowNetworkLayer over loopback sockets "
+    "(harness/c16disp.py: connection attempt refused / abandoned by a disconnect request while CONNECTING / "
+    "established and closed by the peer, each followed by a later connect request that must start afresh); the "
+    "asyncore loop itself and the operating system's sockets are not modelled",
     "consonance's handshake worker is replaced by a stand-in that performs the same transitions "
     "(reset, start -> handshake, finish -> transport) on the real WANoiseProtocol state machine with the real "
     "WANoiseTransport over identity ciphers; handshake crypto and its worker thread belong to C04",
@@ -803,6 +807,8 @@ def run(ctx):
             if ofail is not None:
                 ctx.violation("oracle:C16.lifecycle", {"kind": "script", "options": o.as_dict(),
                               "guards": list(fixes), "history": hist_json(h), "oracle": ofail})
+    # the fake dispatcher's contract against the shipped dispatchers (real network layer, loopback sockets)
+    evals += c16disp.check(ctx)
     if not ctx.proof_ok and not ctx.violations:
         ctx.tie_broken_without_input("theorem:" + ctx.failing_theorem(), ctx.ties.get("proof"))
     if model is None and not ctx.violations:
@@ -833,6 +839,9 @@ def run(ctx):
 
 def replay(ctx, data):
     case = data["case"]
+    if case.get("kind") == "dispatcher":
+        c16rig.load_repo_mods(ctx.scratch)
+        return c16disp.replay(case)
     if "history" not in case:
         print("nothing to replay:", json.dumps(case)[:400])
         return 1
